@@ -295,6 +295,26 @@ def leaf_table():
 
     L['(_ bvN w)'] = bvlit
 
+    # FloatingPoint: the special values (_ +oo eb sb), (_ -oo eb sb),
+    # (_ NaN eb sb), (_ +zero eb sb), (_ -zero eb sb) have sort
+    # (_ FloatingPoint eb sb)
+    def fpspecial(name):
+
+        def build(c):
+            e = c.fresh_pos('e', 2)
+            sb = c.fresh_pos('s', 2)
+            return (c.node('_', c.leaf(name), c.plain_numeral(e),
+                           c.plain_numeral(sb)), c.FP(e, sb))
+
+        return build
+
+    for name in ('+oo', '-oo', 'NaN', '+zero', '-zero'):
+        L[f'(_ {name} eb sb)'] = fpspecial(name)
+    # ... and the rounding-mode constants have sort RoundingMode
+    for name in ('RNE', 'RNA', 'RTP', 'RTN', 'RTZ', 'roundNearestTiesToEven',
+                 'roundTowardZero'):
+        L[name] = const(name, lambda c: c.RM())
+
     def var(sortf):
 
         def build(c):
